@@ -277,6 +277,9 @@ Qed.
 Definition sub_good (s : subframe) : Prop :=
   verify_subframe s = true /\ sub_typed s /\ sub_u_ok s /\ sub_quot_u32 s.
 
+(* ... and has the dimensions it was asked for *)
+Definition sub_dims (s : subframe) (n : nat) (bps : N) : Prop := sub_block s = N.of_nat n /\ sub_bps s = bps.
+
 Section Sub.
   Variable ent : N -> N -> N -> N.
   Variable qlpc : N -> N -> qparams.
@@ -424,3 +427,54 @@ Proof.
            (sample_ok_bounded bps samples Hbps Hs)
            ltac:(intros Hul; destruct (Hq Hul) as (_ & B & C); split; [exact C | lia]) Hv Ht Hu Hp).
 Qed.
+
+(* ---- dimensions of what encode_subframe returns ---- *)
+Section Dims.
+  Variable ent : N -> N -> N -> N.
+  Variable qlpc : N -> N -> qparams.
+
+  Theorem encode_subframe_dims cfg fi var samples bps sf :
+    encode_subframe ent qlpc cfg fi var samples bps = Ok sf ->
+    (cfg_use_lpc cfg = true -> (length (q_coefs (qlpc fi var)) <= length samples)%nat) ->
+    sub_dims sf (length samples) bps.
+  Proof.
+    unfold encode_subframe, sub_dims. intros E Hq.
+    destruct (cfg_use_constant cfg && is_constant samples).
+    - destruct samples as [|x r]; [discriminate|]. apply Ok_inj' in E. subst sf. split; reflexivity.
+    - set (n := N.of_nat (length samples)) in *. set (baseline := (8 + n * bps)%N) in *.
+      destruct (n <? MIN_PRED)%N eqn:Eshort; cbn [negb andb] in E.
+      + cbn [bind] in E. apply Ok_inj' in E. subst sf. split; reflexivity.
+      + destruct (if cfg_use_fixed cfg then if (30 <=? bps)%N then Panic 308
+                                            else fixed_candidate ent cfg fi var samples bps baseline
+                  else Ok None) as [fixed0| |] eqn:Ef; cbn [bind] in E; try discriminate.
+        assert (Hfixed : forall x, fixed0 = Some x -> sub_block x = n /\ sub_bps x = bps).
+        { intros x Hx. subst fixed0. destruct (cfg_use_fixed cfg); [|discriminate].
+          destruct (30 <=? bps)%N; [discriminate|].
+          destruct (fixed_candidate_form' ent _ _ _ _ _ _ _ Ef) as (k & pr & Hk & Hi & Hfind & ->).
+          cbn [sub_block sub_bps]. unfold encode_residual_with. cbn [r_block]. rewrite fixed_errors_length. split; reflexivity. }
+        set (fixed := match fixed0 with
+                      | Some x => if (subframe_count_bits x <? baseline)%N then Some x else None
+                      | None => None end) in *.
+        assert (Hfixed2 : forall x, fixed = Some x -> sub_block x = n /\ sub_bps x = bps).
+        { intros x Hx. unfold fixed in Hx. destruct fixed0 as [y|]; [|discriminate].
+          destruct (subframe_count_bits y <? baseline)%N; [|discriminate].
+          inversion Hx; subst. apply Hfixed. reflexivity. }
+        destruct (if cfg_use_lpc cfg then _ else Ok None) as [lpc| |] eqn:El; cbn [bind] in E; try discriminate.
+        assert (Hlpc : forall c, lpc = Some c -> sub_block c = n /\ sub_bps c = bps).
+        { intros c Hc. subst lpc. destruct (cfg_use_lpc cfg) eqn:Eul; [|discriminate].
+          unfold lpc_candidate in El.
+          destruct (lpc_errors (qlpc fi var) samples) as [errs| |] eqn:Ee; cbn [bind] in El; try discriminate.
+          unfold residual_checked, encode_residual in El.
+          destruct (forallb in_i32 _); [|discriminate].
+          destruct (find_prc errs _ _) as [pr| |]; cbn [bind] in El; try discriminate.
+          match type of El with
+          | Ok (if ?b then Some ?cand else None) = _ => destruct b; [|discriminate]
+          end.
+          apply Ok_inj' in El. inversion El; subst c. cbn [sub_block sub_bps]. unfold encode_residual_with. cbn [r_block].
+          rewrite (lpc_errors_length _ _ _ Ee (Hq eq_refl)). split; reflexivity. }
+        destruct lpc as [c|]; [apply Ok_inj' in E; subst; apply Hlpc; reflexivity|].
+        destruct fixed as [x|] eqn:Efx; apply Ok_inj' in E; subst sf.
+        * apply Hfixed2. reflexivity.
+        * split; reflexivity.
+  Qed.
+End Dims.
